@@ -228,7 +228,11 @@ theorem C10_stop_at_failure (c : PlanCfg) (a : PlanCli) (e : PlanEnv) (k : Nat)
     (hk : e.failAt = some k) (ev : Ev)
     (hev : ((plan c a e).1.filter Ev.isVcs)[k]? = some ev) (hns : ev.swallowed = false) :
     (plan c a e).1.getLast? = some ev ∧ (plan c a e).2 = 1 := by
-  sorry
+  have hv : Ev.isVcs = Ev.vcs := by funext ev; cases ev <;> rfl
+  have hs : ev.swallowed = ev.swal := by cases ev <;> rfl
+  rw [hv] at hev
+  rw [hs] at hns
+  exact stop_core hk (plan_post c a e) hev hns
 
 /-- a failing hook is the last thing that happens -/
 theorem C10_hook_failure_stops (c : PlanCfg) (a : PlanCli) (e : PlanEnv) :
